@@ -72,6 +72,51 @@ func TestVerifReplayValidators(t *testing.T) {
 	}
 	fmt.Printf("REPLAY-CASES fn=%s n=%d\n", fn, cases)
 	vrRangeCases()
+	vrPatternCases()
+}
+
+// validatePattern: a YANG pattern has to match the whole value (RFC 7950 9.4.5)
+func vrPatternCases() {
+	fn := "(*tree.sharedEntryAttributes).validatePattern"
+	n := 0
+	for _, c := range []struct {
+		pattern, value string
+		inverted       bool
+		valid          bool
+		substringOnly  bool
+	}{
+		{"hallo [0-9a-fA-F]*", "hallo 12", false, true, false},
+		{"hallo [0-9a-fA-F]*", "hallo", false, false, false},
+		{"hallo [0-9a-fA-F]*", "xx hallo 12 zz", false, false, true},
+		{"[0-9]+", "123", false, true, false},
+		{"[0-9]+", "abc", false, false, false},
+		{"[0-9]+", "abc123", false, false, true},
+		{"a|b", "a", false, true, false},
+		{"a|b", "xay", false, false, true},
+		{"[0-9]+", "abc", true, true, false},
+		{"[0-9]+", "123", true, false, false},
+	} {
+		n++
+		lt := &sdcpb.SchemaLeafType{Type: "string", TypeName: "string", Patterns: []*sdcpb.SchemaPattern{{Pattern: c.pattern, Inverted: c.inverted}}}
+		s := &sharedEntryAttributes{pathElemName: "x", leafVariants: newLeafVariants(nil),
+			schema: &sdcpb.SchemaElem{Schema: &sdcpb.SchemaElem_Field{Field: &sdcpb.LeafSchema{Name: "x", Type: lt}}}}
+		b, _ := proto.Marshal(&sdcpb.TypedValue{Value: &sdcpb.TypedValue_StringVal{StringVal: c.value}})
+		s.leafVariants.les = append(s.leafVariants.les, &LeafEntry{Update: cache.NewUpdate([]string{"x"}, b, 10, "owner1", 0), IsNew: true})
+		errs, pan := vrCollect(func(ch chan *types.ValidationResultEntry) { s.validatePattern(ch) })
+		in := fmt.Sprintf("pattern=%q,inverted=%v,value=%q", c.pattern, c.inverted, c.value)
+		if pan != nil {
+			fmt.Printf("REPLAY-FAIL fn=%s clause=panic input=%s panic=%v\n", fn, in, pan)
+			continue
+		}
+		if (errs == 0) != c.valid {
+			clause := "whole_value_matches"
+			if c.substringOnly {
+				clause += ".known" // recorded finding: patterns are matched unanchored
+			}
+			fmt.Printf("REPLAY-FAIL fn=%s clause=%s input=%s why=%d error(s) reported, the value is valid=%v\n", fn, clause, in, errs, c.valid)
+		}
+	}
+	fmt.Printf("REPLAY-CASES fn=%s n=%d\n", fn, n)
 }
 
 func vrIntListBytes(vals []int64, unsigned bool) []byte {
